@@ -85,7 +85,7 @@ package basestore
 //    local head; the view is the replay of the log; exactly one write event was emitted, after all of that;
 //  * failure: no write event; if the append itself was refused (non-writer) nothing at all changed.
 //@ func (*BaseStore).AddOperation
-//@   props C01 C03 C05 C06 C07 C16
+//@   props C01 C03 C05 C06 C07 C16 C19
 //@   safety C05 C16
 //@   flag nilcalls
 //@   requires wf(b) && op != nil && ref(op) != 0 && b.emitters.evtWrite != nil
@@ -105,6 +105,8 @@ package basestore
 //@   ensures @C16 result1 != nil ==> evCount(W) == N0
 //@   ensures @C03 @C05 result1 != nil && logLen(L) == old(logLen(L)) ==> ents(L) == old(ents(L)) && valsOf(L) == old(valsOf(L)) && dsMap(C) == old(dsMap(C)) && idxState(b.index) == old(idxState(b.index))
 //@   ensures statusProgress(b.replicationStatus) <= statusMax(b.replicationStatus)
+//@   ensures @C19 statusMax(b.replicationStatus) >= old(statusMax(b.replicationStatus)) && statusProgress(b.replicationStatus) >= old(statusProgress(b.replicationStatus))
+//@   ensures @C19 old(logLen(L) <= statusProgress(b.replicationStatus)) ==> logLen(L) <= statusProgress(b.replicationStatus)
 //@   ensures @C06 @C07 result1 == nil ==> (opHasKey(result) == (ptr(op, "operation.operation").Key != nil)) && (opHasKey(result) ==> opKey(result) == deref(ptr(op, "operation.operation").Key)) && opKind(result) == ptr(op, "operation.operation").Op && opValue(result) == ptr(op, "operation.operation").Value && opOK(result)
 //@   ensures @C07 result1 == nil && (forall i Int :: 0 <= i && i < len(ptr(op, "operation.operation").Docs) ==> ptr(op, "operation.operation").Docs[i] != nil) ==> opNDocs(result) == len(ptr(op, "operation.operation").Docs) && (forall i Int :: 0 <= i && i < opNDocs(result) ==> opDocKey(result, i) == ptr(ptr(op, "operation.operation").Docs[i], "operation.opDoc").Key && opDocVal(result, i) == ptr(ptr(op, "operation.operation").Docs[i], "operation.opDoc").Value)
 //@   modifies ents(b.oplog), valsOf(b.oplog), logLen(b.oplog), headsOf(b.oplog), dsMap(b.cache), dsHas(b.cache), idxState(b.index), idxFails(b.index), statusMax(b.replicationStatus), statusProgress(b.replicationStatus), evCount(b.emitters.evtWrite), evLast(b.emitters.evtWrite), "G:sent:Iface"
@@ -114,7 +116,7 @@ package basestore
 // are joined (C04); nothing already merged is ever removed (C08); the replicated event is emitted at most
 // once, and only after the view was re-derived and the merged heads were persisted (C01 C05 C16).
 //@ func (*BaseStore).replicationLoadComplete
-//@   props C01 C04 C05 C06 C07 C08 C10 C16
+//@   props C01 C04 C05 C06 C07 C08 C10 C16 C19
 //@   safety C10 C16
 //@   flag nilcalls
 //@   requires wf(b) && b.emitters.evtReplicated != nil
@@ -143,6 +145,8 @@ package basestore
 //@   ensures @C16 @C05 @C01 evCount(R) == N0 + 1 ==> synced(b) && dsHas(C)[RH]
 //@   ensures @C01 @C06 @C07 (old(synced(b)) ==> synced(b)) || idxFails(b.index) > old(idxFails(b.index))
 //@   ensures statusProgress(b.replicationStatus) <= statusMax(b.replicationStatus)
+//@   ensures @C19 statusMax(b.replicationStatus) >= old(statusMax(b.replicationStatus)) && statusProgress(b.replicationStatus) >= old(statusProgress(b.replicationStatus))
+//@   ensures @C19 evCount(R) == N0 + 1 ==> logLen(L) <= statusProgress(b.replicationStatus)
 //@   modifies ents(b.oplog), valsOf(b.oplog), logLen(b.oplog), headsOf(b.oplog), joinCalls(b.oplog), dsMap(b.cache), dsHas(b.cache), idxState(b.index), idxFails(b.index), statusMax(b.replicationStatus), statusProgress(b.replicationStatus), evCount(b.emitters.evtReplicated), evLast(b.emitters.evtReplicated)
 
 // Load: the effective limit is the argument when positive, else MaxHistory when positive, else unlimited
@@ -164,6 +168,8 @@ package basestore
 //@   loop 2 invariant amount == lim && statusProgress(b.replicationStatus) <= statusMax(b.replicationStatus) && b.oplog == L
 //@   loop 2 invariant forall j Int :: 0 <= j && j < len(heads) ==> heads[j] != nil && heads[j].Clock != nil
 //@   assert @ before call ipfslog.NewFromEntryHash#1: @C15 amount == lim
+//@   assert @ after call ipfslog.NewFromEntryHash#1: @C15 $r1 == nil ==> fetchLen(boxptr($r0, "berty.tech/go-ipfs-log.IPFSLog")) == lim
+//@   assert @ before call wg.Add#1: @C15 @C05 @C01 len(heads) == max(len(localHeads), 0) + max(len(remoteHeads), 0) && (forall j Int :: 0 <= j && j < len(localHeads) ==> heads[j] == localHeads[j]) && (forall j Int :: 0 <= j && j < len(remoteHeads) ==> heads[max(len(localHeads), 0) + j] == remoteHeads[j])
 //@   assert @ before call oplog.Join#1: @C04 @C03 logID(boxptr(l, "berty.tech/go-ipfs-log.IPFSLog")) == logID(oplog) && acOf(boxptr(l, "berty.tech/go-ipfs-log.IPFSLog")) == b.access && prov(boxptr(l, "berty.tech/go-ipfs-log.IPFSLog")) != 0
 //@   assert @ before call b.emitters.evtReady.Emit#1: @C01 @C05 @C16 @C15 len(heads) > 0 ==> synced(b)
 //@   ensures @C01 @C05 @C16 @C15 result == nil && len(heads) > 0 ==> synced(b)
